@@ -1,6 +1,7 @@
 import KG.Spec.LimiterLoop
 import KG.Props.C07
 import KG.Props.C09
+import KG.Props.C18
 /-!
 # Lemmas for the closed loop (`KG.Model.LimiterLoop`)
 
@@ -1552,5 +1553,472 @@ theorem nl_run : ∀ (ops : List Op) (s : State), NLInv s.srv → NoLower s.srv.
 
 end
 
+
+/-! ## every recorded upstream is in the lister -/
+
+def Lsd (listed : List (Nat × Int)) (p : Nat × UpStore) : Prop := ∃ t, aget listed p.1 = some t
+
+structure LsInv (s : Server) : Prop where
+  ups : ∀ p ∈ s.ups, Lsd s.listed p
+  api : ∀ p ∈ s.api, Lsd s.listed p
+
+theorem ls_persist {s : Server} (h : LsInv s) : LsInv s.persist ∧ s.persist.listed = s.listed := by
+  refine ⟨?_, persist_listed s⟩
+  unfold Server.persist
+  split
+  · refine ⟨h.ups, ?_⟩
+    intro p hp
+    rcases List.mem_append.1 hp with e | e
+    · exact h.ups p e
+    · exact h.api p (List.mem_filter.1 e).1
+  · exact h
+
+section
+variable (shardOf : Nat → Nat)
+
+theorem ls_handle {s : Server} (h : LsInv s) (u : Nat) :
+    LsInv (s.handle shardOf u) ∧ (s.handle shardOf u).listed = s.listed := by
+  unfold Server.handle
+  simp only
+  split
+  · exact ⟨h, rfl⟩
+  · split
+    · exact ⟨h, rfl⟩
+    · split
+      · exact ⟨h, rfl⟩
+      · rename_i t ht
+        apply ls_persist
+        refine ⟨?_, h.api⟩
+        intro p hp
+        rcases mem_aset hp with e | e
+        · subst e; exact ⟨t, ht⟩
+        · exact h.ups p e.1
+
+theorem ls_foldl {β : Type} (f : Server → β → Server)
+    (hf : ∀ s b, LsInv s → LsInv (f s b) ∧ (f s b).listed = s.listed) :
+    ∀ (l : List β) (s : Server), LsInv s → LsInv (l.foldl f s) ∧ (l.foldl f s).listed = s.listed
+  | [], _, h => ⟨h, rfl⟩
+  | b :: rest, s, h => by
+    obtain ⟨h1, h2⟩ := hf s b h
+    obtain ⟨h3, h4⟩ := ls_foldl f hf rest (f s b) h1
+    exact ⟨h3, h4.trans h2⟩
+
+theorem ls_startLeading {s : Server} (h : LsInv s) (k : Nat) :
+    LsInv (s.startLeading shardOf k) ∧ (s.startLeading shardOf k).listed = s.listed := by
+  unfold Server.startLeading
+  split
+  · exact ⟨h, rfl⟩
+  · simp only
+    refine ls_foldl _ (fun st p hst => ls_handle shardOf hst p.1) _ _ ?_
+    refine ⟨?_, h.api⟩
+    intro p hp
+    rcases List.mem_append.1 hp with e | e
+    · split at e
+      · exact h.api p (List.mem_filter.1 e).1
+      · simp at e
+    · exact h.ups p (List.mem_filter.1 e).1
+
+theorem ls_stopLeading {s : Server} (h : LsInv s) (k : Nat) :
+    LsInv (s.stopLeading shardOf k) ∧ (s.stopLeading shardOf k).listed = s.listed :=
+  ⟨⟨fun p hp => h.ups p (List.mem_filter.1 hp).1, h.api⟩, rfl⟩
+
+theorem ls_leaderCheck {s : Server} (h : LsInv s) :
+    LsInv (s.leaderCheck shardOf) ∧ (s.leaderCheck shardOf).listed = s.listed := by
+  unfold Server.leaderCheck
+  simp only
+  obtain ⟨h1, h2⟩ := ls_foldl _ (fun st k hst => ls_startLeading shardOf hst k)
+    (s.leaders.filter (fun k => !s.hasStore k)) s h
+  obtain ⟨h3, h4⟩ := ls_foldl _ (fun st k hst => ls_stopLeading shardOf hst k)
+    ((List.foldl (fun st k => st.startLeading shardOf k) s (s.leaders.filter (fun k => !s.hasStore k))).stores.filter
+      (fun k => !s.isLeader k)) _ h1
+  exact ⟨h3, h4.trans h2⟩
+
+theorem ls_mapUps {s : Server} (h : LsInv s) (hb : List (Nat × Nat)) (f : Nat × UpStore → UpStore) :
+    LsInv ({ s with hb := hb, ups := s.ups.map (fun p => (p.1, f p)) } : Server) := by
+  refine ⟨?_, h.api⟩
+  intro p hp
+  obtain ⟨q, hq, rfl⟩ := List.mem_map.1 hp
+  exact h.ups q hq
+
+theorem ls_cleanupTimeout {s : Server} (h : LsInv s) (now : Nat) :
+    LsInv (s.cleanupTimeout shardOf now) ∧ (s.cleanupTimeout shardOf now).listed = s.listed := by
+  unfold Server.cleanupTimeout
+  apply ls_persist
+  exact ls_mapUps h _ _
+
+theorem ls_cleanupUnknown {s : Server} (h : LsInv s) :
+    LsInv (s.cleanupUnknown shardOf) ∧ (s.cleanupUnknown shardOf).listed = s.listed := by
+  unfold Server.cleanupUnknown
+  apply ls_persist
+  exact ls_mapUps h s.hb (fun p => if s.isLeader (shardOf p.1) then p.2.drop (fun i => !s.hbHas i) else p.2)
+
+theorem ls_report {s : Server} (h : LsInv s) (u i : Nat) (x m : Rat) (used lvl : Int) :
+    LsInv (s.report shardOf u i x m used lvl).1 ∧ (s.report shardOf u i x m used lvl).1.listed = s.listed := by
+  unfold Server.report
+  split
+  · exact ⟨h, rfl⟩
+  · rename_i e he
+    simp only
+    apply ls_persist
+    refine ⟨?_, h.api⟩
+    intro p hp
+    rcases mem_aset hp with e1 | e1
+    · subst e1
+      obtain ⟨t, ht⟩ := h.ups (u, e) (serving_mem shardOf he)
+      exact ⟨t, ht⟩
+    · exact h.ups p e1.1
+
+theorem ls_step {s : State} (h : LsInv s.srv) (op : Op) : LsInv (step shardOf s op).srv := by
+  cases op with
+  | list u t =>
+    simp only [step]
+    have key : ∀ p : Nat × UpStore, Lsd s.srv.listed p → Lsd (aset s.srv.listed u t) p := by
+      intro p ⟨t0, h2⟩
+      by_cases hp : p.1 = u
+      · exact ⟨t, by rw [hp]; exact aget_aset_self _ _ _⟩
+      · exact ⟨t0, by rw [aget_aset_ne _ _ _ _ hp]; exact h2⟩
+    exact ⟨fun p hp => key p (h.ups p hp), fun p hp => key p (h.api p hp)⟩
+  | handle u => exact (ls_handle shardOf h u).1
+  | gwSchema g u l t => simp only [step, State.setGw]; (repeat' split) <;> exact h
+  | hb g now =>
+    simp only [step, State.setGw]
+    (repeat' split) <;> first | exact h | exact ⟨h.ups, h.api⟩
+  | report g u x m used lvl =>
+    simp only [step]
+    split
+    · exact h
+    · split
+      · exact h
+      · split
+        · exact h
+        · rename_i gw _ _ _ srv' n hsr
+          have := (ls_report shardOf h u gw.id x m used lvl).1
+          rw [hsr] at this
+          exact this
+  | tick now => exact (ls_leaderCheck shardOf (ls_cleanupTimeout shardOf h now).1).1
+  | unknownPass => exact (ls_cleanupUnknown shardOf h).1
+  | elect k b => exact ⟨h.ups, h.api⟩
+  | gain k => exact (ls_startLeading shardOf (s := s.srv.elect k true) ⟨h.ups, h.api⟩ k).1
+  | lose k => exact (ls_stopLeading shardOf (s := s.srv.elect k false) ⟨h.ups, h.api⟩ k).1
+  | net g b => simp only [step, State.setGw]; (repeat' split) <;> exact h
+  | crash g => simp only [step, State.setGw]; (repeat' split) <;> exact h
+  | ret g id => simp only [step, State.setGw]; (repeat' split) <;> exact h
+
+theorem ls_run : ∀ (ops : List Op) (s : State), LsInv s.srv → LsInv (run shardOf s ops).srv
+  | [], _, h => h
+  | op :: rest, s, h => by
+    simp only [run, List.foldl_cons]
+    exact ls_run rest _ (ls_step shardOf h op)
+
+end
+
+/-! ## abstraction onto C18's model (`KG.Model.Reclaim`) and the commuting lemmas for heartbeats and the time-out pass -/
+
+/-- how the loop's numbers are spelled in C18's model: upstream names, instance identities, the schema name; and the
+    shard function on names. Instance identities are distinct and non-empty, the shard functions agree. -/
+structure Naming where
+  un : Nat → Str
+  iname : Nat → Str
+  sname : Str
+  shardOf' : Str → Nat
+  iname_inj : ∀ a b, iname a = iname b → a = b
+  iname_ne : ∀ a, iname a ≠ []
+
+/-- the `.state` condition of an upstream -/
+def stateCond (N : Naming) (u : Nat) (e : UpStore) : Reclaim.Cond :=
+  ⟨Reclaim.stateName (N.un u), N.un u, [], none, [⟨N.sname, some e.srv.total, none⟩], [⟨N.sname, some e.srv.recSum, none⟩]⟩
+
+/-- the condition of instance `i` holding quota `q`: labelled with its instance by the second and later reports, with
+    the empty string by the first (C18) -/
+def recCond (N : Naming) (u : Nat) (e : UpStore) (r : Nat × Int) : Reclaim.Cond :=
+  ⟨Reclaim.condName (N.un u) (N.iname r.1), N.un u, N.iname r.1,
+   some (if e.labelled.contains r.1 then N.iname r.1 else []), [⟨N.sname, some r.2, none⟩], []⟩
+
+def condsOf (N : Naming) (shardOf : Nat → Nat) (p : Nat × UpStore) : List (Nat × Reclaim.Cond) :=
+  (shardOf p.1, stateCond N p.1 p.2) :: p.2.srv.quotas.map (fun r => (shardOf p.1, recCond N p.1 p.2 r))
+
+/-- the limiter server of the loop as a state of C18's model (local store: the API copies are not part of it; global-count
+    flow controls do not exist in the allocate loop) -/
+def toReclaim (N : Naming) (shardOf : Nat → Nat) (s : Server) : Reclaim.State :=
+  { hb := s.hb.map (fun p => (N.iname p.1, p.2))
+    leaders := s.leaders
+    shards := s.stores
+    clusters := []
+    conds := s.ups.flatMap (condsOf N shardOf)
+    fcs := []
+    listed := s.listed.map (fun p => (N.un p.1, [⟨N.sname, some p.2, none⟩]))
+    locks := [] }
+
+theorem toReclaim_heartbeat (N : Naming) (shardOf : Nat → Nat) (s : Server) (i t : Nat) :
+    toReclaim N shardOf (s.heartbeat i t) = Reclaim.heartbeat (toReclaim N shardOf s) (N.iname i) t := by
+  simp only [toReclaim, Server.heartbeat, Reclaim.heartbeat, List.map_append, List.map_cons, List.map_nil,
+    List.filter_map]
+  congr 3
+  apply List.filter_congr
+  intro p _
+  simp only [Function.comp]
+  by_cases h : p.1 = i
+  · subst h; simp
+  · have : N.iname p.1 ≠ N.iname i := fun e => h (N.iname_inj _ _ e)
+    have h1 : (p.1 != i) = true := by simpa using h
+    have h2 : (N.iname p.1 != N.iname i) = true := by simpa using this
+    rw [h1, h2]
+
+theorem dead_map (N : Naming) (shardOf : Nat → Nat) (s : Server) (now : Nat) :
+    ((toReclaim N shardOf s).hb.filter (Reclaim.timedOut now)).map (·.1) = (s.dead now).map N.iname := by
+  simp only [toReclaim, Server.dead, List.filter_map, List.map_map]
+  congr 1
+
+theorem mem_dead_iff (N : Naming) (s : Server) (now i : Nat) :
+    ((s.dead now).map N.iname).any (fun d => d == N.iname i) = (s.dead now).contains i := by
+  rw [Bool.eq_iff_iff]
+  simp only [List.any_eq_true, List.mem_map, beq_iff_eq, List.contains_eq_mem, decide_eq_true_eq]
+  constructor
+  · rintro ⟨d, ⟨j, hj, rfl⟩, e⟩
+    rw [N.iname_inj _ _ e] at hj; exact hj
+  · intro h; exact ⟨_, ⟨i, h, rfl⟩, rfl⟩
+
+/-- which conditions of one upstream the time-out pass of C18's model keeps -/
+theorem keep_state (N : Naming) (st : Reclaim.State) (dead : List Str) (u : Nat) (e : UpStore) :
+    (!(dead.any (fun d => Reclaim.selects d (stateCond N u e)) && Reclaim.deletable N.shardOf' st (stateCond N u e)))
+      = true := by
+  simp [Reclaim.deletable, stateCond]
+
+theorem selects_rec (N : Naming) (u : Nat) (e : UpStore) (r : Nat × Int) (d : Str) :
+    Reclaim.selects d (recCond N u e r) = (e.labelled.contains r.1 && d == N.iname r.1) := by
+  simp only [Reclaim.selects, recCond]
+  cases hl : e.labelled.contains r.1 with
+  | true =>
+    simp only [if_true, Bool.true_and]
+    rw [Bool.eq_iff_iff]
+    simp only [Bool.and_eq_true, beq_iff_eq, Option.some.injEq]
+    constructor
+    · rintro ⟨h, _⟩; exact h.symm
+    · intro h; exact ⟨h.symm, h.symm⟩
+  | false =>
+    simp only [Bool.false_eq_true, if_false, Bool.false_and]
+    rw [Bool.eq_false_iff]
+    intro h
+    simp only [Bool.and_eq_true, beq_iff_eq, Option.some.injEq] at h
+    exact N.iname_ne r.1 (h.2.trans h.1.symm)
+
+theorem toReclaim_persist (N : Naming) (shardOf : Nat → Nat) (s : Server) :
+    toReclaim N shardOf s.persist = toReclaim N shardOf s := by
+  unfold Server.persist; split <;> rfl
+
+theorem deletable_rec (N : Naming) (shardOf : Nat → Nat) (hsh : ∀ u, N.shardOf' (N.un u) = shardOf u) (s : Server)
+    (u : Nat) (e : UpStore) (r : Nat × Int) :
+    Reclaim.deletable N.shardOf' (toReclaim N shardOf s) (recCond N u e r) = s.isLeader (shardOf u) := by
+  have : (N.iname r.1 != []) = true := by simpa using N.iname_ne r.1
+  simp only [Reclaim.deletable, recCond, hsh, this, Bool.and_true]
+  rfl
+
+/-- a record is picked by C18's time-out pass iff the loop's pass drops it -/
+theorem pick_rec (N : Naming) (shardOf : Nat → Nat) (hsh : ∀ u, N.shardOf' (N.un u) = shardOf u) (s : Server) (now : Nat)
+    (u : Nat) (e : UpStore) (r : Nat × Int) :
+    (((s.dead now).map N.iname).any (fun d => Reclaim.selects d (recCond N u e r)) &&
+      Reclaim.deletable N.shardOf' (toReclaim N shardOf s) (recCond N u e r))
+    = (s.isLeader (shardOf u) && ((s.dead now).contains r.1 && e.labelled.contains r.1)) := by
+  rw [deletable_rec N shardOf hsh]
+  have h1 : ((s.dead now).map N.iname).any (fun d => Reclaim.selects d (recCond N u e r))
+      = (e.labelled.contains r.1 && (s.dead now).contains r.1) := by
+    simp only [selects_rec]
+    cases e.labelled.contains r.1 with
+    | false => simp
+    | true => simp only [Bool.true_and]; exact mem_dead_iff N s now r.1
+  rw [h1]
+  cases s.isLeader (shardOf u) <;> cases (s.dead now).contains r.1 <;> cases e.labelled.contains r.1 <;> rfl
+
+theorem recCond_drop (N : Naming) (u : Nat) (e : UpStore) (P : Nat → Bool) (r : Nat × Int) (hr : P r.1 = false) :
+    recCond N u (e.drop P) r = recCond N u e r := by
+  have : (e.drop P).labelled.contains r.1 = e.labelled.contains r.1 := by
+    simp only [UpStore.drop, List.contains_eq_mem, List.mem_filter, hr, Bool.not_false, and_true]
+  simp only [recCond, this]
+
+/-- the conditions of one upstream after the loop's time-out pass = C18's filter of its conditions before -/
+theorem condsOf_cleanup (N : Naming) (shardOf : Nat → Nat) (hsh : ∀ u, N.shardOf' (N.un u) = shardOf u) (s : Server)
+    (now : Nat) (p : Nat × UpStore) :
+    condsOf N shardOf (p.1, if s.isLeader (shardOf p.1)
+        then p.2.drop (fun i => (s.dead now).contains i && p.2.labelled.contains i) else p.2)
+    = (condsOf N shardOf p).filter (fun r =>
+        !(((s.dead now).map N.iname).any (fun d => Reclaim.selects d r.2) &&
+          Reclaim.deletable N.shardOf' (toReclaim N shardOf s) r.2)) := by
+  obtain ⟨u, e⟩ := p
+  simp only [condsOf, List.filter_cons, keep_state, if_true]
+  congr 1
+  · congr 1
+    split <;> rfl
+  rw [List.filter_map]
+  cases hl : s.isLeader (shardOf u) with
+  | false =>
+    simp only [Bool.false_eq_true, if_false]
+    have : (e.srv.quotas.filter ((fun r : Nat × Reclaim.Cond =>
+        !(((s.dead now).map N.iname).any (fun d => Reclaim.selects d r.2) &&
+          Reclaim.deletable N.shardOf' (toReclaim N shardOf s) r.2)) ∘ fun r => (shardOf u, recCond N u e r)))
+        = e.srv.quotas := by
+      rw [List.filter_eq_self]
+      intro r _
+      simp only [Function.comp, pick_rec N shardOf hsh, hl, Bool.false_and, Bool.not_false]
+    rw [this]
+  | true =>
+    simp only [if_true]
+    have hf : (e.srv.quotas.filter ((fun r : Nat × Reclaim.Cond =>
+        !(((s.dead now).map N.iname).any (fun d => Reclaim.selects d r.2) &&
+          Reclaim.deletable N.shardOf' (toReclaim N shardOf s) r.2)) ∘ fun r => (shardOf u, recCond N u e r)))
+        = e.srv.quotas.filter (fun q => !((s.dead now).contains q.1 && e.labelled.contains q.1)) := by
+      apply List.filter_congr
+      intro r _
+      simp only [Function.comp, pick_rec N shardOf hsh, hl, Bool.true_and]
+    rw [hf]
+    show List.map _ (e.srv.quotas.filter _) = _
+    apply List.map_congr_left
+    intro r hr
+    have hr' := (List.mem_filter.1 hr).2
+    have : ((s.dead now).contains r.1 && e.labelled.contains r.1) = false := by
+      cases hx : ((s.dead now).contains r.1 && e.labelled.contains r.1) with
+      | false => rfl
+      | true => simp only [hx] at hr'; cases hr'
+    rw [recCond_drop N u e _ r this]
+
+theorem flatMap_congr' {α β : Type} (l : List α) (f g : α → List β) (h : ∀ x ∈ l, f x = g x) :
+    l.flatMap f = l.flatMap g := by
+  induction l with
+  | nil => rfl
+  | cons a rest ih =>
+    simp only [List.flatMap_cons]
+    rw [h a List.mem_cons_self, ih (fun x hx => h x (List.mem_cons_of_mem _ hx))]
+
+/-- **commuting lemma, time-out pass**: the loop's `cleanupTimeout` IS C18's `cleanupTimeout` under the abstraction -/
+theorem toReclaim_cleanupTimeout (N : Naming) (shardOf : Nat → Nat) (hsh : ∀ u, N.shardOf' (N.un u) = shardOf u)
+    (s : Server) (now : Nat) :
+    toReclaim N shardOf (s.cleanupTimeout shardOf now)
+      = Reclaim.cleanupTimeout N.shardOf' (toReclaim N shardOf s) now := by
+  unfold Server.cleanupTimeout
+  rw [toReclaim_persist]
+  unfold Reclaim.cleanupTimeout
+  rw [dead_map]
+  simp only [toReclaim, List.map_nil]
+  congr 1
+  · rw [List.filter_map]
+    congr 1
+  · rw [List.flatMap_map, List.filter_flatMap]
+    exact flatMap_congr' _ _ _ (fun p _ => condsOf_cleanup N shardOf hsh s now p)
+
+/-! ### the unknown pass -/
+
+theorem hbHas_map (N : Naming) (shardOf : Nat → Nat) (s : Server) (i : Nat) :
+    Reclaim.hbHas (toReclaim N shardOf s) (N.iname i) = s.hbHas i := by
+  simp only [Reclaim.hbHas, toReclaim, Server.hbHas, List.any_map]
+  congr 1
+  funext p
+  simp only [Function.comp]
+  rw [Bool.eq_iff_iff]
+  simp only [beq_iff_eq]
+  exact ⟨fun e => N.iname_inj _ _ e, fun e => by rw [e]⟩
+
+theorem hbHas_nil (N : Naming) (shardOf : Nat → Nat) (s : Server) :
+    Reclaim.hbHas (toReclaim N shardOf s) [] = false := by
+  simp only [Reclaim.hbHas, toReclaim, List.any_map]
+  rw [List.any_eq_false]
+  intro p _
+  simp only [Function.comp, beq_iff_eq]
+  exact N.iname_ne p.1
+
+theorem isListed_map (N : Naming) (shardOf : Nat → Nat) (s : Server) (u : Nat) (t : Int)
+    (h : aget s.listed u = some t) : Reclaim.isListed (toReclaim N shardOf s) (N.un u) = true := by
+  simp only [Reclaim.isListed, toReclaim, List.any_map, List.any_eq_true]
+  exact ⟨(u, t), aget_mem h, by simp⟩
+
+/-- every condition of the abstraction belongs to an upstream of `s.ups` -/
+theorem cond_upstream (N : Naming) (shardOf : Nat → Nat) (s : Server) (r : Nat × Reclaim.Cond)
+    (hr : r ∈ (toReclaim N shardOf s).conds) : ∃ p ∈ s.ups, r.2.upstream = N.un p.1 := by
+  simp only [toReclaim, List.mem_flatMap] at hr
+  obtain ⟨p, hp, hr⟩ := hr
+  refine ⟨p, hp, ?_⟩
+  simp only [condsOf, List.mem_cons, List.mem_map] at hr
+  rcases hr with rfl | ⟨q, _, rfl⟩ <;> rfl
+
+theorem condsOf_unknown (N : Naming) (shardOf : Nat → Nat) (hsh : ∀ u, N.shardOf' (N.un u) = shardOf u) (s : Server)
+    (p : Nat × UpStore) :
+    condsOf N shardOf (p.1, if s.isLeader (shardOf p.1) then p.2.drop (fun i => !s.hbHas i) else p.2)
+    = (condsOf N shardOf p).filter (fun r =>
+        !(Reclaim.unknown (toReclaim N shardOf s) r.2 && Reclaim.deletable N.shardOf' (toReclaim N shardOf s) r.2)) := by
+  obtain ⟨u, e⟩ := p
+  have hst : (!(Reclaim.unknown (toReclaim N shardOf s) (stateCond N u e) &&
+      Reclaim.deletable N.shardOf' (toReclaim N shardOf s) (stateCond N u e))) = true := by
+    simp [Reclaim.deletable, stateCond]
+  have hpick : ∀ r : Nat × Int, (Reclaim.unknown (toReclaim N shardOf s) (recCond N u e r) &&
+      Reclaim.deletable N.shardOf' (toReclaim N shardOf s) (recCond N u e r))
+      = (s.isLeader (shardOf u) && !s.hbHas r.1) := by
+    intro r
+    rw [deletable_rec N shardOf hsh]
+    have : Reclaim.unknown (toReclaim N shardOf s) (recCond N u e r) = !s.hbHas r.1 := by
+      simp only [Reclaim.unknown, recCond, hbHas_map]
+    rw [this, Bool.and_comm]
+  simp only [condsOf, List.filter_cons, hst, if_true]
+  congr 1
+  · congr 1
+    split <;> rfl
+  rw [List.filter_map]
+  cases hl : s.isLeader (shardOf u) with
+  | false =>
+    simp only [Bool.false_eq_true, if_false]
+    have : (e.srv.quotas.filter ((fun r : Nat × Reclaim.Cond =>
+        !(Reclaim.unknown (toReclaim N shardOf s) r.2 && Reclaim.deletable N.shardOf' (toReclaim N shardOf s) r.2)) ∘
+          fun r => (shardOf u, recCond N u e r))) = e.srv.quotas := by
+      rw [List.filter_eq_self]
+      intro r _
+      simp only [Function.comp, hpick, hl, Bool.false_and, Bool.not_false]
+    rw [this]
+  | true =>
+    simp only [if_true]
+    have hf : (e.srv.quotas.filter ((fun r : Nat × Reclaim.Cond =>
+        !(Reclaim.unknown (toReclaim N shardOf s) r.2 && Reclaim.deletable N.shardOf' (toReclaim N shardOf s) r.2)) ∘
+          fun r => (shardOf u, recCond N u e r)))
+        = e.srv.quotas.filter (fun q => !(!s.hbHas q.1)) := by
+      apply List.filter_congr
+      intro r _
+      simp only [Function.comp, hpick, hl, Bool.true_and]
+    rw [hf]
+    show List.map _ (e.srv.quotas.filter _) = _
+    apply List.map_congr_left
+    intro r hr
+    have hr' := (List.mem_filter.1 hr).2
+    have : (!s.hbHas r.1) = false := by
+      cases hx : (!s.hbHas r.1) with
+      | false => rfl
+      | true => simp only [hx] at hr'; cases hr'
+    rw [recCond_drop N u e _ r this]
+
+/-- **commuting lemma, unknown pass**: when every recorded upstream is in the lister (true in every reachable state:
+    `loop_listed`), the loop's `cleanupUnknown` IS C18's `cleanupUnknown` under the abstraction -/
+theorem toReclaim_cleanupUnknown (N : Naming) (shardOf : Nat → Nat) (hsh : ∀ u, N.shardOf' (N.un u) = shardOf u)
+    (s : Server) (hlisted : ∀ p ∈ s.ups, ∃ t, aget s.listed p.1 = some t) :
+    toReclaim N shardOf (s.cleanupUnknown shardOf) = Reclaim.cleanupUnknown N.shardOf' (toReclaim N shardOf s) := by
+  -- no upstream is deleted as a whole: every condition's upstream is listed
+  have hnone : ((toReclaim N shardOf s).conds.filter fun r =>
+      Reclaim.unknown (toReclaim N shardOf s) r.2 && !Reclaim.isListed (toReclaim N shardOf s) r.2.upstream) = [] := by
+    rw [List.filter_eq_nil_iff]
+    intro r hr
+    obtain ⟨p, hp, hu⟩ := cond_upstream N shardOf s r hr
+    obtain ⟨t, ht⟩ := hlisted p hp
+    rw [hu, isListed_map N shardOf s p.1 t ht]
+    simp
+  unfold Server.cleanupUnknown
+  rw [toReclaim_persist]
+  unfold Reclaim.cleanupUnknown
+  have htrue : ∀ {α : Type} (l : List α), l.filter (fun _ => true) = l :=
+    fun l => List.filter_eq_self.2 (fun _ _ => rfl)
+  simp only [hnone, List.map_nil, List.contains_nil, Bool.not_false, htrue]
+  have hc : (toReclaim N shardOf s).conds.filter (fun r =>
+      !(Reclaim.unknown (toReclaim N shardOf s) r.2 && Reclaim.deletable N.shardOf' (toReclaim N shardOf s) r.2))
+      = (s.ups.map (fun p => (p.1, if s.isLeader (shardOf p.1) then p.2.drop (fun i => !s.hbHas i) else p.2))).flatMap
+          (condsOf N shardOf) := by
+    rw [List.flatMap_map]
+    show List.filter _ (s.ups.flatMap (condsOf N shardOf)) = _
+    rw [List.filter_flatMap]
+    exact (flatMap_congr' _ _ _ (fun p _ => condsOf_unknown N shardOf hsh s p)).symm
+  rw [hc]
+  rfl
 
 end KG.Lemmas.LimiterLoop
